@@ -41,6 +41,12 @@ CHECKS = {
  "C07": dict(technique="TLA+ P-spec ShmAbs (segment generations, bytes, sizes, one lock per generation, crash) and I-spec ShmProto (one action per shm_open/fstat/ftruncate/mmap/sem_* call of p_shm_new incl. the lock-semaphore sub-protocol, SIGKILL anywhere, finding patterns as ghost 'tainted' set) checked by TLC; every edge of the two-creator graph and TLC's own counterexamples executed on real processes parked at system-call gates; multi-process histories (bytes, sizes, blocking lock, owner free, recovery) validated by TLC (ShmTrace); free-running lock histories validated by LockLin",
              text="TLC enumerates all interleavings of two first-time creators at system-call granularity with a kill at any point and proves NewSucceeds / OneLock / Recoverable outside three named patterns; the patterns and the whole remaining graph are replayed on the real library (real kernel objects, real SIGKILL), each followed by two-handle probes (same bytes, same size, mutual exclusion of the lock) and the documented recovery, all judged by the P-spec; the three patterns reproduce on the real code and are listed as known findings.",
              design_ref="3 C07", note="Trusted: " + TB + "; --wrap seams; parent-serialised children; pshm-sysv.c not build-selectable here."),
+ "C11": dict(technique="TLA+ P-spec HashCtx (which chunks a digest belongs to: open/closed life-cycle, empty updates, reset) model-checked by TLC; life-cycle skeletons from its graph and (buffered bytes, chunk length) pairs around every block/padding boundary executed on the real PCryptoHash for all 11 algorithms; traces validated by TLC (HashTrace) with the digest function supplied as an oracle table",
+             text="TLC decides, for every recorded call sequence, which concatenation of chunks each returned hex string / raw digest must be the standard digest of (updates after a read ignored until reset, empty updates ignored, repeatable reads, hex = lower-case encoding with the algorithm's length); the digest values themselves come from Python hashlib and an independent RFC 5831 GOST reference. Thorough adds single updates of 2^32+k bytes.",
+             design_ref="3 C11", note="Trusted: " + TB + "; hashlib, lib/gost3411.py (checked against published vectors); digest function fidelity itself is oracle-based, not a TLA+ result."),
+ "C16": dict(technique="TLA+ P-spec IniStore (abstract lines -> sections/keys/values: last assignment wins, lines before the first section dropped, key-less sections unlisted) model-checked by TLC; abstract files from its graph plus random ones rendered into concrete spellings (blanks, quoting, comment markers, '=' in values, BOMs, CRLF, long lines) and parsed by the real PIniFile; results validated by TLC (IniTrace, conversions from an oracle table); robustness on mutated/random bytes under ASan with the consistency predicate evaluated by TLC (IniRobust)",
+             text="For files inside the documented grammar every section/key listing and every getter (string, int, boolean, list, default fallback) must equal what the P-spec derives from the abstract file; for arbitrary bytes the parser must return, stay memory-safe (ASan/UBSan build) and report a consistent object.",
+             design_ref="3 C16", note="Trusted: " + TB + "; Python rendering of the documented grammar; double conversion asserted for exactly representable values only."),
 }
 NA = {
  "C17": "pure encode/decode fidelity against the platform's inet_pton/inet_ntop over all addresses: no state, transitions or histories for a TLA+ specification to constrain (DESIGN.md section 5)",
